@@ -224,6 +224,29 @@ def generate(tier, seed, ctx):
         lo_ = off; hi_ = off + w
         if hi_ > lo_:
             R.append("c18.itrans %s %d %s %s" % (gen(), rng.choice([22, 23, 24]), hx(lo_), hx(hi_)))
+    # --- parameter guards: reversed limits, negative width, negative mean must stop with a diagnostic before any draw;
+    #     the boundaries x_min == x_max, sigma == 0, mean == 0 are meaningful
+    for k in range(60 if th else 24):
+        a = mixed_magnitude(rng, -3, 3); w = abs(mixed_magnitude(rng, -3, 3))
+        R.append("c18.uniform %s %s %s" % (gen(), hx(a + w), hx(a)))                       # reversed
+        R.append("c18.uniform %s %s %s" % (gen(), hx(a), hx(a)))                           # one-point domain
+        R.append("c18.gauss %s %s %s" % (gen(), hx(a), hx(-w)))                            # negative width
+        R.append("c18.gauss %s %s %s" % (gen(), hx(a), hx(0.0)))
+        R.append("c18.poisson %s %s" % (gen(), hx(-10.0 ** rng.uniform(-3, 3))))           # negative mean
+        R.append("c18.poissonv %s %s" % (gen(), lst([1.5, -0.25] if k % 2 else [-2.0, 3.0, 1.0])))
+        pid = rng.choice([0, 1, 3])
+        R.append("c18.reject1 %s %d %s %s %s" % (gen(), pid, hx(1.0), hx(-1.0), hx(2.0)))  # reversed domain
+        R.append("c18.reject1 %s %d %s %s %s" % (gen(), pid, hx(-1.0), hx(1.0), hx(-2.0))) # negative envelope
+        R.append("c18.reject2 %s 0 %s %s %s %s %s" % (gen(), hx(0.0), hx(1.0), hx(2.0), hx(1.0), hx(1.0)))
+        R.append("c18.reject2 %s 0 %s %s %s %s %s" % (gen(), hx(1.0), hx(0.0), hx(0.0), hx(1.0), hx(1.0)))
+        s_, t_, b_ = rng.choice([(0, 1, 0), (2, 1, 0), (0, 2, 3), (3, 2, 1)])
+        tail1, tail2 = " 0 0x0p+0 0", " 0 0x0p+0 0 0x0p+0 0"
+        R.append("c18.metro1 %s %d %d %d %s 1 %s%s" % (gen(), s_, t_, b_, hx(1.0), lst([1.0, -1.0]), tail1))       # reversed domain
+        R.append("c18.metro1 %s %d %d %d %s 1 %s%s" % (gen(), s_, t_, b_, hx(-1.0), lst([]), tail1))               # negative sigma, unbounded
+        R.append("c18.metro1 %s %d %d %d %s 1 %s%s" % (gen(), s_, t_, b_, hx(-1.0), lst([-1.0, 1.0]), tail1))      # negative sigma, bounded: only if a step is made
+        R.append("c18.metro2 %s %d %d %d %s %s 1 %s%s" % (gen(), s_, t_, b_, hx(1.0), hx(1.0), lst([0.0, 1.0, 2.0, 1.0]), tail2))
+        R.append("c18.metro2 %s %d %d %d %s %s 1 %s%s" % (gen(), s_, t_, b_, hx(1.0), hx(-0.5), lst([]), tail2))
+        R.append("c18.metro2 %s %d %d %d %s %s 1 %s%s" % (gen(), s_, t_, b_, hx(-1.0), hx(0.5), lst([0.0, 1.0, 0.0, 1.0]), tail2))
     # --- Poisson ----------------------------------------------------------------------------------------
     means = [1e-2, 0.1, 0.5, 1.0, 2.5, 10.0, 37.0, 100.0, 499.0, 500.0, 501.0, 709.0, 750.0, 1000.0, 1500.5, 3000.0, 5000.0]
     for k in range(260 if th else 90):
